@@ -270,17 +270,17 @@ class C16(Prop):
         s += rng.choice([b"", b"", b"", b"-", b"+", b"-", b"+-", b"- "])
         s += rng.choice([b"", b"", b"", b"0x", b"0X", b"0", b"0x0x", b"00", b"0b"])
         k = rng.below(10)
-        if k == 0:
+        if k <= 1:
             body = rng.choice([b"9223372036854775807", b"9223372036854775808", b"9223372036854775809",
                                b"7fffffffffffffff", b"8000000000000000", b"777777777777777777777",
                                b"1000000000000000000000", b"18446744073709551616", b"1y2p0ij32e8e7",
                                b"1y2p0ij32e8e8", b"92233720368547758070"])
-        elif k == 1:
+        elif k == 2:
             body = b""
         else:
             body = rng.bytes(rng.range(1, 6), alphabet=b"0123456789abcdefABCDEFxzZ01701")
         s += body
-        s += rng.choice([b"", b"", b"", b"", b" ", b"\x00", b"g", b"\n", b".5", b"x"])
+        s += rng.choice([b"", b"", b"", b"", b"", b"", b" ", b"\x00", b"g", b"\n", b".5", b"x"])
         base = rng.choice([None, None, None, 0, 0, 2, 8, 10, 10, 16, 16, 16, 36, 1, 37, -1, 1 << 32, (1 << 32) + 10,
                            I64_MAX, 7, 11])
         args = [{"s": hx(s)}]
@@ -294,7 +294,7 @@ class C16(Prop):
 
     def gen_probe(self, rng, case, recent):
         k = rng.below(100)
-        if k < 6 and recent:
+        if k < 12 and recent:
             # repeat an earlier call, or the same key under another algorithm / with another size (cache)
             p = json.loads(json.dumps(rng.choice(recent)))
             j = rng.below(3)
@@ -361,7 +361,7 @@ class C16(Prop):
         return [self.gen_case(rng.fork("c%d" % i)) for i in range(n)]
 
     def budget(self, tier):
-        return 420 if tier == "quick" else 9000
+        return 900 if tier == "quick" else 12000
 
     def corpus(self, ctx):
         out = []
